@@ -46,14 +46,14 @@ CLAIMS = {
  'C12': ('other', 'Proved: the class invariant VT for abstract codecs (value/raw_text/indent setters, from_value, from_raw_text keep value and text describing each other, refusal before any write). '
          'Concrete codecs (re.sub, Decimal, strftime, the lark lexer) are outside the verifier: exhaustive/bounded with the real lexer.' + B,
          TB + 'bounded/exhaustive: Date over a calendar sample (quick) / all dates (thorough), flags, Bool; strings <= 3-4 over the distinguishing alphabet for EscapedString/BlockComment/InlineComment; lexeme acceptance via Parser.parse_token', '5 C12'),
- 'C13': ('other', 'No obligations yet for the NumberExpr operators (planned unit l5); decided by the bounded driver only in this version.' + B,
+ 'C13': ('other', "Proved: NumberMulExpr.value and NumberAddExpr.value are the left folds of their operators over the operand values (uninterpreted Decimal arithmetic), i.e. usual precedence and associativity for a tree of the grammar's shape; the in-place operator helpers (_wrap_paren, _as_mul_expr, _as_atom_expr, _imuldiv, _iaddsub) build exactly the tree: old operands and operators in their order, then the new operator, then the new operand, a sum being parenthesised before it becomes a factor. That value(result) = value(self) op value(other) follows from these two by the fold lemma (meta-argument); non-in-place frames, _unary/_add_expr_from_value and the re-parse are bounded only." + B,
          'bounded only: expression trees of depth <= 1 (quick) / 2 (thorough) x all operators x operand kinds incl. operands attached inside a posting; independent evaluator; re-parse', '5 C13'),
  'C14': ('other', 'Proved: auto_claim_comments of every template class claims its own leading, then trailing comment and then every comment-bearing slot exactly once, last slot first. '
          'Not yet under contract: _claim_comment / claimer (ownership ghost). The correspondence with the documented layout rule depends on lark tokenisation: bounded.' + B,
          TB + 'A-lark-4; bounded: layouts of <= 3 comment blocks x <= 2 models per level vs an independent implementation of the documented rule; known finding C14-leading-comment-with-different-indentation', '5 C14'),
  'C15': ('other', 'Proved (syntactic template obligations): from_children of every template class detaches every slot in slot order into one store, reattaches every slot and passes every slot to the constructor. Parse-back is bounded (A-lark-2).' + B,
          TB + 'bounded: 27 classes with from_value x all presence subsets of optional arguments (<= 256 per class quick) with representative values, alone and assembled into a File', '5 C15'),
- 'C16': ('other', 'No obligations yet for editor.py (abstract file-system contracts planned); decided by the bounded driver on a real directory only in this version.' + B,
+ 'C16': ('other', "Proved over an abstract file system (A-fs): Editor.edit_file does not touch the file system before the yield (a raising block leaves every file as it was); afterwards the path holds exactly the printed model, no other path changed, and an unchanged model is not rewritten; reading and writing are verbatim because both opens pass newline=''. edit_file_recursive (queue, dict, set difference, glob) is not under contract: bounded driver on a real directory." + B,
          'bounded only (exhaustive over the stated finite space): 6 include graphs x LF/CRLF x 5 path spellings x {none, edit-all, edit-one, remove, add, respell, raise} x recursive/single; bytes and mtime_ns compared', '5 C16'),
  'C17': ('other', 'Proved: _find_spacing (for an arbitrary successor function) skips zero-width tokens, then returns exactly the visible tokens of the maximal run of Newline/Whitespace tokens, in order, nothing else in between. '
          'The four accessor properties that pass store.get_prev/get_next are bounded only.' + B,
